@@ -70,6 +70,12 @@ func vpPayload(n int, tag byte) []byte {
 func vpC16Frames(writes int, deliveries int) {
 	wr, rd, wire, _ := vpPair()
 	sizes := []int{1, 1023, 1024, 1025, 2049}
+	flipAt := []int{0, 3, 4, 500, -17, -1}
+	readSizes := []int{1, 7, 1024, 4096}
+	if writes > 1 {
+		// several writes: smaller alphabets (the single-write entry covers the full ones)
+		sizes, flipAt, readSizes = []int{1, 1024, 1025}, []int{0, 4, -17}, []int{7, 4096}
+	}
 	var written []byte
 	for i := 0; i < writes; i++ {
 		msg := vpPayload(sizes[vp.Choice("write-size", len(sizes))], byte(i))
@@ -96,7 +102,10 @@ func vpC16Frames(writes int, deliveries int) {
 		tampered := false
 		switch vp.Choice("tamper", 3) {
 		case 1:
-			pos := []int{0, 3, 4, 500, len(f) - 17, len(f) - 1}[vp.Choice("flip-at", 6)]
+			pos := flipAt[vp.Choice("flip-at", len(flipAt))]
+			if pos < 0 {
+				pos += len(f)
+			}
 			mask := vp.Byte("flip-mask")
 			vp.Assume(mask != 0)
 			f[pos] ^= mask
@@ -107,7 +116,7 @@ func vpC16Frames(writes int, deliveries int) {
 		}
 		wire.rd.Reset()
 		wire.rd.Write(f)
-		buf := make([]byte, []int{1, 7, 1024, 4096}[vp.Choice("read-size", 4)])
+		buf := make([]byte, readSizes[vp.Choice("read-size", len(readSizes))])
 		// read the whole frame's content
 		for {
 			n, err := rd.Read(buf)
@@ -123,7 +132,9 @@ func vpC16Frames(writes int, deliveries int) {
 		if failed {
 			vp.Reach("reader-failed")
 			vp.Assert(tampered || wire.seq[j] != expectNext, "C16.frames.the-next-written-frame-untouched-is-accepted")
-			break
+			// the reader may be asked again: what it still accepts is only the frame it was waiting for
+			failed = false
+			continue
 		}
 		vp.Reach("frame-accepted")
 		vp.Assert(!tampered && wire.seq[j] == expectNext, "C16.frames.only-the-next-written-frame-untouched-is-accepted")
